@@ -2490,6 +2490,11 @@ class ChannelManager:
             )
             return
 
+        if request.source_cid != channel.destination_cid:
+            # Not a request for this channel: silently discard
+            logger.warning('disconnection request with mismatching source CID')
+            return
+
         channel.on_disconnection_request(request)
 
     def on_l2cap_disconnection_response(
